@@ -201,3 +201,24 @@ func Column(ps []Period, d Day) (int, bool) {
 	}
 	return 0, false
 }
+
+// Days are written as YYYY-MM-DD in JSON (replay files, evidence samples).
+func (dn Day) MarshalJSON() ([]byte, error) { return []byte(`"` + dn.String() + `"`), nil }
+
+func (dn *Day) UnmarshalJSON(b []byte) error {
+	s := string(b)
+	if len(s) >= 2 && s[0] == '"' {
+		d, err := ParseDay(s[1 : len(s)-1])
+		if err != nil {
+			return err
+		}
+		*dn = d
+		return nil
+	}
+	var n int
+	if _, err := fmt.Sscanf(s, "%d", &n); err != nil {
+		return err
+	}
+	*dn = Day(n)
+	return nil
+}
